@@ -40,7 +40,8 @@ type routeCase struct {
 	// PrevLDS: an earlier version of the listener (same name) that the control plane had pushed, and that every router
 	// has been used with, before the tables above came into force (handlers registered on the manager are run for both
 	// pushes, state-of-the-world: a listener that is gone is absent from the second map)
-	PrevLDS json.RawMessage `json:"prev_lds"`
+	PrevLDS   json.RawMessage   `json:"prev_lds"`
+	PrevNamed []json.RawMessage `json:"prev_named"` // named route tables that existed (and were used) earlier and may be gone now
 }
 
 type routeRes struct {
@@ -206,34 +207,59 @@ func runRoute(raw json.RawMessage) (interface{}, error) {
 		}
 		preps = append(preps, prepared{call, ctx, router})
 	}
-	if len(c.PrevLDS) > 0 && string(c.PrevLDS) != "null" {
-		// the earlier push: served and used, then replaced by the tables in force
-		if n, err := parseNode(c.PrevLDS); err == nil {
-			if a, err := buildRes("lds", n); err == nil {
-				if prev, err := xdsresource.UnmarshalLDS([]*anypb.Any{a}); err == nil && len(prev) == 1 {
-					cur := fm.snapshot(xdsresource.ListenerType)
-					fm.clear(xdsresource.ListenerType)
-					for name, l := range prev {
-						fm.set(xdsresource.ListenerType, name, l, nil)
-						if lisName == "" {
-							lisName = name
+	hasPrevLDS := len(c.PrevLDS) > 0 && string(c.PrevLDS) != "null"
+	if hasPrevLDS || len(c.PrevNamed) > 0 {
+		// the earlier pushes: served and used, then replaced by the tables in force
+		curL := fm.snapshot(xdsresource.ListenerType)
+		curN := fm.snapshot(xdsresource.RouteConfigType)
+		if hasPrevLDS {
+			if n, err := parseNode(c.PrevLDS); err == nil {
+				if a, err := buildRes("lds", n); err == nil {
+					if prev, err := xdsresource.UnmarshalLDS([]*anypb.Any{a}); err == nil && len(prev) == 1 {
+						fm.clear(xdsresource.ListenerType)
+						for name, l := range prev {
+							fm.set(xdsresource.ListenerType, name, l, nil)
+							if lisName == "" {
+								lisName = name
+							}
 						}
+						fm.fire(xdsresource.ListenerType)
 					}
-					fm.fire(xdsresource.ListenerType)
-					for i := range preps {
-						if preps[i].call.Service == "" {
-							preps[i].call.Service = lisName
-						}
-						routeSafely(preps[i].router, preps[i].ctx, newRI(preps[i].call))
-					}
-					fm.clear(xdsresource.ListenerType)
-					for name, r := range cur {
-						fm.set(xdsresource.ListenerType, name, r.val, r.err)
-					}
-					fm.fire(xdsresource.ListenerType)
 				}
 			}
 		}
+		if len(c.PrevNamed) > 0 {
+			var pa []*anypb.Any
+			for _, r := range c.PrevNamed {
+				if n, err := parseNode(r); err == nil {
+					if a, err := buildRes("rds", n); err == nil {
+						pa = append(pa, a)
+					}
+				}
+			}
+			if prevN, err := xdsresource.UnmarshalRDS(pa); err == nil {
+				for name, rc := range prevN {
+					fm.set(xdsresource.RouteConfigType, name, rc, nil)
+				}
+				fm.fire(xdsresource.RouteConfigType)
+			}
+		}
+		for i := range preps {
+			if preps[i].call.Service == "" {
+				preps[i].call.Service = lisName
+			}
+			routeSafely(preps[i].router, preps[i].ctx, newRI(preps[i].call))
+		}
+		fm.clear(xdsresource.ListenerType)
+		for name, r := range curL {
+			fm.set(xdsresource.ListenerType, name, r.val, r.err)
+		}
+		fm.fire(xdsresource.ListenerType)
+		fm.clear(xdsresource.RouteConfigType)
+		for name, r := range curN {
+			fm.set(xdsresource.RouteConfigType, name, r.val, r.err)
+		}
+		fm.fire(xdsresource.RouteConfigType)
 	}
 	for _, p := range preps {
 		var rs []routeRes
